@@ -28,9 +28,13 @@ func runConfig(line string) *result {
 	for _, n := range []int{1, 2, 7, 3 * runtime.NumCPU()} {
 		q := workerpool.New("n", workerpool.WithWorkerCount(n))
 		bad("WithWorkerCount", q.WorkerCount(), n)
-		q.Start()
+		if !guarded(r, q, "start", func() { q.Start() }) {
+			return r
+		}
 		bad("started pool IsRunning", q.IsRunning(), true)
-		q.Shutdown()
+		if !guarded(r, q, "shutdown", func() { q.Shutdown() }) {
+			return r
+		}
 		if !within(bound, q.ShutdownComplete.Wait) {
 			r.fail("termination", "ShutdownComplete.Wait did not return on an idle pool", classifyPool(q, "complete"))
 		}
